@@ -281,7 +281,7 @@ class CSSVariablesDeclaration(cssutils.util._NewBase):
 
         # check name
         wellformed, seq, store, unused = ProdParser().parse(
-            normalize(variableName), 'variableName', Sequence(PreDef.ident())
+            variableName, 'variableName', Sequence(PreDef.ident())
         )
         if not wellformed:
             self._log.error(f'Invalid variableName: {variableName!r}: {value!r}')
@@ -298,17 +298,23 @@ class CSSVariablesDeclaration(cssutils.util._NewBase):
                 # update seq
                 self.seq._readonly = False
 
-                variableName = normalize(variableName)
+                # the name is the identifier the grammar accepted: no
+                # surrounding white space or comments, unicode escapes
+                # resolved. Like _setCssText keep it literally in seq
+                # (names are normalized when compared and serialized) and
+                # use its normalized form as key.
+                literalName = [x.value for x in seq if 'IDENT' == x.type][0]
+                variableName = normalize(literalName)
 
                 if variableName in self._vars:
                     for i, x in enumerate(self.seq):
                         if 'var' == x.type and normalize(x.value[0]) == variableName:
                             self.seq.replace(
-                                i, [variableName, v], x.type, x.line, x.col
+                                i, [literalName, v], x.type, x.line, x.col
                             )
                             break
                 else:
-                    self.seq.append([variableName, v], 'var')
+                    self.seq.append([literalName, v], 'var')
                 self.seq._readonly = True
                 self._vars[variableName] = v
 
